@@ -1014,7 +1014,8 @@ class Node:
             self.send_message(conn, err)
             return
 
-        realm_name = message.destination_realm.decode()
+        # a name that is not even valid text cannot be a realm served here
+        realm_name = message.destination_realm.decode(errors="replace")
         if realm_name not in self._peer_routes:
             self.logger.warning(
                 f"{conn} realm {realm_name} not served by this node "
